@@ -29,80 +29,40 @@ def parts(st, v):
     return (('val', vkey(v)),)
 
 
-def check_assembly(chk, prog, env, model):
+def check_assembly(chk, prog, env, model, rules=('C10.assembly', 'C10.buffers')):
+    """jwt_encode, one run per algorithm with the positional buffer rule (lib/buffers.py): what the token text is made of
+    (C10.assembly) and that every write fits its buffer and the signer gets exactly the text's length (C10.buffers)"""
+    import buffers
     unit = 'libjwt/jwt-encode.c'
     prog.func(unit, 'jwt_encode')
     n = 0
     bad = 0
-
-    class R(Rule):
-        alloc_may_fail = False
-
-        def keep_event(self, ev):
-            return ev[0] == 'api' and ev[1] in ('jwt_sign', 'enc', 'json_dumps')
-
-    def h_strcpy(it, st, args, node):
-        st.mem[(args[0].loc, args[0].path + '#parts')] = parts(st, args[1])
-        return [(st, args[0])]
-
-    def h_strcat(it, st, args, node):
-        st.mem[(args[0].loc, args[0].path + '#parts')] = parts(st, args[0]) + parts(st, args[1])
-        return [(st, args[0])]
-
-    def h_sprintf(it, st, args, node):
-        fmt = args[1].text() if isinstance(args[1], Str) else None
-        out = ()
-        ai = 2
-        if fmt is None:
-            out = (('val', 'nonliteral-format'),)
-        else:
-            i = 0
-            lit = ''
-            while i < len(fmt):
-                if fmt[i] == '%' and i + 1 < len(fmt) and fmt[i + 1] == 's':
-                    if lit:
-                        out += (('lit', lit),)
-                        lit = ''
-                    out += parts(st, args[ai]) if ai < len(args) else (('val', 'missing-arg'),)
-                    ai += 1
-                    i += 2
-                elif fmt[i] == '%':
-                    out += (('val', 'other-conversion'),)
-                    i += 2
-                else:
-                    lit += fmt[i]
-                    i += 1
-            if lit:
-                out += (('lit', lit),)
-        st.mem[(args[0].loc, args[0].path + '#parts')] = out
-        return [(st, Int(1))]
-
-    def h_enc(it, st, args, node):
-        o = st.newobj('enc')
-        src = args[1]
-        st.mem[(o, '#parts')] = (('b64url', parts(st, src)),)
-        it.store(st, args[0].loc, args[0].path, Ref(o))
-        st.trace.append(('api', 'enc', Ref(o), [src], node_loc(node)))
-        return [(st, Term(('enclen', vkey(Ref(o)))))]
-
-    def h_dumps(it, st, args, node):
-        o = st.newobj('dump')
-        st.mem[(o, '#parts')] = (('json', vkey(args[0]), vkey(args[1])),)
-        st.trace.append(('api', 'json_dumps', Ref(o), list(args), node_loc(node)))
-        return [(st, Ref(o))]
-
-    def h_sign(it, st, args, node):
-        o = st.newobj('sigraw')
-        st.mem[(o, '#parts')] = (('signature-of', parts(st, args[3])),)
-        it.store(st, args[1].loc, args[1].path, Ref(o))
-        it.store(st, args[2].loc, args[2].path, Term(('siglen',)))
-        st.trace.append(('api', 'jwt_sign', Ref(o), [args[3], args[4], parts(st, args[3])], node_loc(node)))
-        return [(st, Int(0))]
-    hooks = {'strcpy': h_strcpy, 'strcat': h_strcat, 'sprintf': h_sprintf, 'jwt_base64uri_encode': h_enc, 'json_dumps': h_dumps,
-             'jwt_sign': h_sign, 'strlen': lambda it, st, args, node: [(st, Term(('strlen', vkey(args[0]))))]}
+    bn = 0
+    bbad = 0
     NONE = env.alg_val['none']
+    undecided = None
     for alg in env.all_alg_vals:
-        it = Interp(prog, unit, model=model, rule=R(), hooks=hooks)
+        rule = buffers.BufRule()
+        hk = buffers.hooks(rule, env)
+
+        def h_sign(it, st, args, node, rule=rule):
+            data, dl = args[3], args[4]
+            l = rule.len_of(it, st, data, node)
+            rule.obligations += 1
+            if l is not None:
+                a, b = linform(dl), linform(l)
+                if a is None or b is None or a != b:
+                    rule.viol.append(('sign-length', 'jwt_sign is given %s bytes of a text of length %s: the signature must cover exactly the '
+                                                     'text that is emitted' % (buffers.show(dl), buffers.show(l)), node_loc(node), 'jwt_encode'))
+            o = st.newobj('sigraw')
+            st.mem[(o, '#parts')] = (('signature-of', rule.parts(it, st, data)),)
+            it.store(st, args[1].loc, args[1].path, Ref(o))
+            sl = Term(('siglen',))
+            st.cons[sl.k] = (('>=', 0),)
+            it.store(st, args[2].loc, args[2].path, sl)
+            return [(st, Int(0))]
+        hk['jwt_sign'] = h_sign
+        it = Interp(prog, unit, model=model, rule=rule, hooks=hk)
         st = State()
         jwt = ('obj', 'jwt')
         st.zero.add(jwt)
@@ -112,14 +72,17 @@ def check_assembly(chk, prog, env, model):
         st.mem[(jwt, 'claims')] = C_
         out = ('obj', 'out')
         res = it.run('jwt_encode', [Ref(jwt), Ref(out)], st)
-        for s, rv in res:
+        if not any(isinstance(rv, Int) and rv.v == 0 for s_, rv in res):
+            raise AnalysisBroken('jwt_encode has no successful path for alg %s' % alg)
+        for s_, rv in res:
             if not (isinstance(rv, Int) and rv.v == 0):
                 continue
             n += 1
-            o = s.mem.get((out, ''))
-            got = parts(s, o) if isinstance(o, Ref) else None
-            dumps = [e for e in s.trace if e[0] == 'api' and e[1] == 'json_dumps']
+            o = s_.mem.get((out, ''))
+            got = rule.parts(it, s_, o) if isinstance(o, Ref) else None
+            dumps = [e for e in s_.trace if e[0] == 'api' and e[1] == 'json_dumps#']
             flags_ok = all(isinstance(e[3][1], Int) and (e[3][1].v & 0x80) and (e[3][1].v & 0x20) for e in dumps)   # JSON_SORT_KEYS|JSON_COMPACT
+
             def seg(x):
                 return ('b64url', (('json', vkey(x), ('int', dumps[0][3][1].v if dumps else 0)),))
             head, payload = seg(H_), seg(C_)
@@ -131,14 +94,25 @@ def check_assembly(chk, prog, env, model):
             norm = normalise(got)
             if norm != normalise(want):
                 bad += 1
-                chk.add(Finding('C10.assembly', unit, 'jwt_encode', 'token-shape[%s]' % ('none' if alg == NONE else 'signed'),
+                chk.add(Finding(rules[0], unit, 'jwt_encode', 'token-shape[%s]' % ('none' if alg == NONE else 'signed'),
                                 'alg=%s: the token is assembled as %s; expected b64url(header JSON) "." b64url(claims JSON) "." %s'
                                 % (env.aname(alg), show(norm), 'empty' if alg == NONE else 'b64url(signature over exactly "header.payload")')))
             if not flags_ok:
                 bad += 1
-                chk.add(Finding('C10.assembly', unit, 'write_js', 'dump-flags', 'JSON is not dumped with JSON_SORT_KEYS|JSON_COMPACT'))
-    chk.rule('C10.assembly', 'jwt_encode: token = b64url(dump(headers)) "." b64url(dump(claims)) "." [b64url(sign(exactly that text))]; none => empty third part',
+                chk.add(Finding(rules[0], unit, 'write_js', 'dump-flags', 'JSON is not dumped with JSON_SORT_KEYS|JSON_COMPACT'))
+        bn += rule.obligations
+        for kind, msg, (f, l), fn in sorted(set(rule.viol), key=repr):
+            bbad += 1
+            chk.add(Finding(rules[1], f or unit, fn, kind, msg, line=l))
+        if rule.undecided and not rule.viol and undecided is None:
+            undecided = rule.undecided[0]
+    chk.rule(rules[0], 'jwt_encode: token = b64url(dump(headers)) "." b64url(dump(claims)) "." [b64url(sign(exactly that text))]; none => empty third part',
              n, bad, floor=15)
+    chk.rule(rules[1], 'jwt_encode: every strcpy/strcat/sprintf/snprintf/memcpy/indexed store stays inside the bytes allocated for its buffer '
+                       '(linear forms over the encoder results), and jwt_sign is handed exactly the length of the text', bn, bbad, floor=20)
+    if undecided:
+        from interp import Unsupported
+        raise Unsupported(undecided)
 
 
 def normalise(p):
@@ -461,60 +435,10 @@ def check_builder_effects(chk, prog):
     chk.rule('C10.builder-unchanged', 'nothing reachable from jwt_builder_generate writes a builder field other than error/error_msg', n, bad, floor=20)
 
 
-def check_buffers(chk, prog, env, model, rulename='C10.buffers'):
-    """jwt_encode: every strcpy/strcat/sprintf fits the buffer it writes, and the signer is given exactly the length of the text"""
-    import buffers
-    unit = 'libjwt/jwt-encode.c'
-    prog.func(unit, 'jwt_encode')
-    n = 0
-    bad = 0
-    NONE = env.alg_val['none']
-    for alg in (NONE, env.alg_val['HS256']):
-        rule = buffers.BufRule()
-        hk = buffers.hooks(rule, env)
-
-        def h_sign(it, st, args, node, rule=rule):
-            data, dl = args[3], args[4]
-            l = rule.len_of(it, st, data, node)
-            rule.obligations += 1
-            if l is not None:
-                a, b = linform(dl), linform(l)
-                if a is None or b is None or a != b:
-                    rule.viol.append(('sign-length', 'jwt_sign is given %s bytes of a text of length %s: the signature must cover exactly the '
-                                                     'text that is emitted' % (buffers.show(dl), buffers.show(l)), node_loc(node), 'jwt_encode'))
-            o = st.newobj('sigraw')
-            it.store(st, args[1].loc, args[1].path, Ref(o))
-            sl = Term(('siglen',))
-            st.cons[sl.k] = (('>=', 0),)
-            it.store(st, args[2].loc, args[2].path, sl)
-            return [(st, Int(0))]
-        hk['jwt_sign'] = h_sign
-        it = Interp(prog, unit, model=model, rule=rule, hooks=hk)
-        st = State()
-        jwt = ('obj', 'jwt')
-        st.zero.add(jwt)
-        st.mem[(jwt, 'alg')] = Int(alg)
-        st.mem[(jwt, 'headers')] = Ref(('obj', 'hdrs'))
-        st.mem[(jwt, 'claims')] = Ref(('obj', 'clms'))
-        res = it.run('jwt_encode', [Ref(jwt), Ref(('obj', 'out'))], st)
-        if not any(isinstance(rv, Int) and rv.v == 0 for s_, rv in res):
-            raise AnalysisBroken('%s: jwt_encode has no successful path for alg %s' % (rulename, alg))
-        n += rule.obligations
-        for kind, msg, (f, l), fn in sorted(set(rule.viol), key=repr):
-            bad += 1
-            chk.add(Finding(rulename, f or unit, fn, kind, msg, line=l))
-        if rule.undecided and not rule.viol:
-            from interp import Unsupported
-            raise Unsupported(rule.undecided[0])
-    chk.rule(rulename, 'jwt_encode: each strcpy/strcat/sprintf writes at most the bytes allocated for its buffer (linear forms over the '
-                       'encoder results), and jwt_sign is handed exactly strlen of the text', n, bad, floor=6)
-
-
 def run(chk, prog, tier):
     env = Env(prog)
     model = build_model()
     chk.guard('assembly', check_assembly, chk, prog, env, model)
-    chk.guard('buffers', check_buffers, chk, prog, env, model)
     from props import c11
     chk.guard('encoder length fact', c11.check_url_maps, chk, prog, model)     # the buffer rule uses: result >= strlen(text)
     chk.guard('header setup', check_head_setup, chk, prog, env, model)
